@@ -210,6 +210,121 @@ theorem project_product_single (l : Table) (b : Row) (π g : Row → Row) (hπ :
     simp only [project, product, List.flatMap_cons, List.map_cons, List.map_nil, List.map_append] at ih ⊢
     simp [hπ, ih]
 
+-- ------------------------------------------------------------------------------------------ IN / EXISTS as joins
+theorem isTrue_or3 (x y : B3) : isTrue (or3 x y) = (isTrue x || isTrue y) := by
+  cases x with
+  | none => cases y with
+    | none => rfl
+    | some v => cases v <;> rfl
+  | some u => cases u <;> (cases y with
+    | none => rfl
+    | some v => cases v <;> rfl)
+
+/-- `v IN (…)` is TRUE exactly when some element compares equal (TRUE) -/
+theorem isTrue_in3 (v : Val) (vs : List Val) : isTrue (in3 v vs) = vs.any (fun x => isTrue (eq3 v x)) := by
+  induction vs with
+  | nil => rfl
+  | cons x xs ih => simp [in3, isTrue_or3, ih]
+
+theorem eq3_true_not_null (a b : Val) (h : isTrue (eq3 a b) = true) : b.isNull = false := by
+  unfold eq3 at h
+  cases hb : b.isNull
+  · rfl
+  · simp [hb, isTrue] at h
+
+theorem col_append_right (a b : Row) (w : Nat) (h : a.length = w) : col w (a ++ b) = col 0 b := by
+  subst h
+  simp [col, List.getD_eq_getElem?_getD, List.getElem?_append_right]
+
+theorem isTrue_some (b : Bool) : isTrue (some b) = b := by cases b <;> rfl
+
+theorem not_isEmpty_filter_eq_any {α : Type} (q : α → Bool) (s : List α) : (!(s.filter q).isEmpty) = s.any q := by
+  induction s with
+  | nil => rfl
+  | cons b bs ih =>
+    simp only [List.filter_cons, List.any_cons]
+    cases hq : q b
+    · simpa using ih
+    · simp
+
+/-- `EXISTS (SELECT … FROM s WHERE p)` is TRUE exactly when some row of s satisfies p -/
+theorem isTrue_exists3_select (p : Row → B3) (s : Table) :
+    isTrue (exists3 (select p s)) = s.any (fun b => isTrue (p b)) := by
+  simp only [exists3, isTrue_some, select]
+  exact not_isEmpty_filter_eq_any _ s
+
+/-- the core of unnest_subqueries: a semi join is a LEFT JOIN against a version `s'` of the subquery that has the
+    same rows as a SET but AT MOST ONE match per outer row (the de-duplicating GROUP BY), followed by
+    `WHERE s'.key IS NOT NULL` and the projection back onto the outer columns.  `keyCol` is the position of the
+    subquery's key in the joined row; matches have a non-NULL key, the padding row a NULL one. -/
+theorem semiJoin_as_dedup_leftJoin (on : Row → Row → B3) (l s s' : Table) (w : Nat)
+    (hw : ∀ a ∈ l, a.length = w)
+    (hset : ∀ b, b ∈ s' ↔ b ∈ s)
+    (hu : ∀ a ∈ l, (matchesOf on a s').length ≤ 1)
+    (hnn : ∀ a b, isTrue (on a b) = true → (col 0 b).isNull = false) :
+    project (fun row => row.take w)
+        (select (fun row => not3 (isNull3 (col w row))) (leftJoin on l s' 1))
+      = semiJoin on l s := by
+  induction l with
+  | nil => rfl
+  | cons a l ih =>
+    have e1 : leftJoin on (a :: l) s' 1 = padRight a (matchesOf on a s') 1 ++ leftJoin on l s' 1 := by
+      simp [leftJoin]
+    have hwa := hw a (List.mem_cons_self ..)
+    have hua := hu a (List.mem_cons_self ..)
+    have ih' := ih (fun a' h' => hw a' (List.mem_cons_of_mem _ h')) (fun a' h' => hu a' (List.mem_cons_of_mem _ h'))
+    rw [e1, select_append]
+    simp only [project, List.map_append] at ih' ⊢
+    rw [ih']
+    have hany : s.any (fun b => isTrue (on a b)) = !(matchesOf on a s').isEmpty := by
+      cases hm : matchesOf on a s' with
+      | nil =>
+        simp only [List.isEmpty_nil, Bool.not_true, List.any_eq_false]
+        intro b hb
+        have : b ∈ s' := (hset b).mpr hb
+        have hf : b ∉ matchesOf on a s' := by rw [hm]; simp
+        simp only [matchesOf, List.mem_filter, not_and] at hf
+        simpa using hf this
+      | cons b bs =>
+        simp only [List.isEmpty_cons, Bool.not_false, List.any_eq_true]
+        have hb : b ∈ matchesOf on a s' := by rw [hm]; simp
+        simp only [matchesOf, List.mem_filter] at hb
+        exact ⟨b, (hset b).mp hb.1, hb.2⟩
+    simp only [semiJoin, List.filter_cons, hany]
+    cases hm : matchesOf on a s' with
+    | nil =>
+      have hc : col w (a ++ nulls 1) = .null := by rw [col_append_right a _ w hwa]; rfl
+      simp [padRight, select, hc, isNull3, not3, isTrue, Val.isNull]
+    | cons b bs =>
+      cases bs with
+      | cons c cs => simp [hm] at hua
+      | nil =>
+        have hb : b ∈ matchesOf on a s' := by rw [hm]; simp
+        simp only [matchesOf, List.mem_filter] at hb
+        have hnb := hnn a b hb.2
+        simp [padRight, select, col_append_right a b w hwa, isNull3, not3, isTrue, hnb, hwa]
+
+/-- adding to a source of an inner join a filter IMPLIED by the WHERE clause changes nothing (pushdown_dnf keeps
+    the original predicate and pushes only a consequence of it) -/
+theorem select_innerJoin_implied_left (on : Row → Row → B3) (c q : Row → B3) (l r : Table)
+    (h : ∀ a b, isTrue (c (a ++ b)) = true → isTrue (q a) = true) :
+    select c (innerJoin on l r) = select c (innerJoin on (select q l) r) := by
+  induction l with
+  | nil => rfl
+  | cons a l ih =>
+    have e1 : ∀ l', innerJoin on (a :: l') r = (matchesOf on a r).map (fun b => a ++ b) ++ innerJoin on l' r := by
+      intro l'; simp [innerJoin]
+    by_cases hq : isTrue (q a) = true
+    · have e2 : select q (a :: l) = a :: select q l := by simp [select, hq]
+      rw [e2, e1, e1, select_append, select_append, ih]
+    · have e2 : select q (a :: l) = select q l := by simp [select, hq]
+      rw [e2, e1, select_append, ih]
+      have : select c ((matchesOf on a r).map (fun b => a ++ b)) = [] := by
+        simp only [select, List.filter_eq_nil_iff, List.mem_map]
+        rintro x ⟨b, _, rfl⟩ hc
+        exact hq (h a b hc)
+      rw [this, List.nil_append]
+
 -- ------------------------------------------------------------------------------------------ commutation
 theorem perm_flatMap_cons_map {α β : Type} (r : List α) (g : α → β) (h : α → List β) :
     List.Perm (r.flatMap (fun b => g b :: h b)) (r.map g ++ r.flatMap h) := by
